@@ -88,18 +88,28 @@ func c19Ref(name string, x []float64) (want, tol float64, constrained bool) {
 		return sum, 1e-12 * sumAbs, true
 	case "Mean", "MeanVariance[0]":
 		return mean, 1e-12 * sumAbs / float64(n), true
-	case "Variance", "MeanVariance[1]":
+	case "Variance", "MeanVariance[1]", "StdDev":
 		if n == 1 {
 			return 0, 0, false // the unbiased estimator is 0/0 for one element: only "no panic" is demanded
 		}
 		v := ss / float64(n-1)
-		return v, 1e-9*v + 1e-12*sumAbs*sumAbs/float64(n), true
-	case "StdDev":
-		if n == 1 {
-			return 0, 0, false
+		// error bound of a textbook (two-pass) evaluation: each deviation x-mean carries an absolute error of a
+		// few ulps of max|x|, so the sum of squares is off by at most ~ 2*eps*max|x|*sum|x-mean| (x16 for slack).
+		// A formula that cancels catastrophically (sum of squares minus squared sum) is far outside this bound.
+		maxAbs, sumDev := 0.0, 0.0
+		for _, xv := range x {
+			maxAbs = math.Max(maxAbs, math.Abs(xv))
+			sumDev += math.Abs(xv - mean)
 		}
-		v := math.Sqrt(ss / float64(n-1))
-		return v, 1e-9*v + 1e-9*sumAbs/float64(n), true
+		tolV := 1e-9*v + 16*2.3e-16*2*maxAbs*sumDev/float64(n-1)
+		if name != "StdDev" {
+			return v, tolV, true
+		}
+		sd := math.Sqrt(v)
+		if sd == 0 {
+			return 0, math.Sqrt(tolV), true
+		}
+		return sd, 1e-9*sd + tolV/(2*sd), true
 	case "Median":
 		return quantileRef(sorted, 0.5), 0, true
 	case "Q25":
